@@ -285,7 +285,8 @@ func cloneTrace(t *core.Trace) *core.Trace {
 	return n
 }
 
-// minimise shrinks the step list, the tx lists and the site actions while the same violation fires.
+// minimise shrinks the trace while the same violation class fires: ddmin (halving chunks) over steps,
+// then whole replicas, then site actions, then CheckTx calls inside actions, then transactions.
 func minimise(tr *core.Trace, want core.Violation, maxReplays int, maxWall time.Duration) (*core.Trace, int) {
 	t0 := time.Now()
 	replays := 0
@@ -299,7 +300,6 @@ func minimise(tr *core.Trace, want core.Violation, maxReplays int, maxWall time.
 	}
 	best := cloneTrace(tr)
 	best.Violation = nil
-	// cut everything after the violating step
 	if want.Step > 0 && want.Step+1 < len(best.Steps) {
 		c := cloneTrace(best)
 		c.Steps = c.Steps[:want.Step+1]
@@ -307,71 +307,36 @@ func minimise(tr *core.Trace, want core.Violation, maxReplays int, maxWall time.
 			best = c
 		}
 	}
-	// 1. drop steps (never step 0 = boot) in shrinking chunks
-	for chunk := (len(best.Steps) - 1) / 2; chunk >= 1; chunk /= 2 {
-		for i := 1; i+chunk <= len(best.Steps); {
-			c := cloneTrace(best)
-			c.Steps = append(c.Steps[:i], c.Steps[i+chunk:]...)
-			if len(c.Steps) > 1 && try(c) {
-				best = c
-			} else {
-				i += chunk
+	// generic ddmin over a list of n atoms; remove(c, idxs) deletes the atoms with the given indexes
+	// (ascending) from clone c.
+	ddmin := func(count func(t *core.Trace) int, remove func(c *core.Trace, from, to int)) {
+		n := count(best)
+		for chunk := (n + 1) / 2; chunk >= 1; chunk /= 2 {
+			for i := 0; i < count(best); {
+				if replays >= maxReplays || time.Since(t0) > maxWall {
+					return
+				}
+				to := i + chunk
+				if to > count(best) {
+					to = count(best)
+				}
+				c := cloneTrace(best)
+				remove(c, i, to)
+				if try(c) {
+					best = c
+				} else {
+					i += chunk
+				}
 			}
-			if replays >= maxReplays {
+			if chunk == 1 {
 				break
 			}
 		}
 	}
-	// 2. drop site actions, step by step
-	for si := range best.Steps {
-		if len(best.Steps[si].Acts) == 0 {
-			continue
-		}
-		c := cloneTrace(best)
-		c.Steps[si].Acts = nil
-		if try(c) {
-			best = c
-			continue
-		}
-		for ai := 0; ai < len(best.Steps[si].Acts); {
-			c := cloneTrace(best)
-			c.Steps[si].Acts = append(c.Steps[si].Acts[:ai], c.Steps[si].Acts[ai+1:]...)
-			if try(c) {
-				best = c
-			} else {
-				ai++
-			}
-		}
-	}
-	// 3. drop transactions from blocks
-	for si := range best.Steps {
-		st := best.Steps[si]
-		if st.Kind != "block" || len(st.Txs) == 0 {
-			continue
-		}
-		c := cloneTrace(best)
-		c.Steps[si].Txs = nil
-		c.Steps[si].Labels = nil
-		dropDeliverActs(c.Steps[si], -1)
-		if try(c) {
-			best = c
-			continue
-		}
-		for ti := 0; ti < len(best.Steps[si].Txs); {
-			c := cloneTrace(best)
-			c.Steps[si].Txs = append(c.Steps[si].Txs[:ti], c.Steps[si].Txs[ti+1:]...)
-			if ti < len(c.Steps[si].Labels) {
-				c.Steps[si].Labels = append(c.Steps[si].Labels[:ti], c.Steps[si].Labels[ti+1:]...)
-			}
-			dropDeliverActs(c.Steps[si], ti)
-			if try(c) {
-				best = c
-			} else {
-				ti++
-			}
-		}
-	}
-	// 4. drop trailing replicas that no step needs
+	// 1. steps (never step 0 = boot)
+	ddmin(func(t *core.Trace) int { return len(t.Steps) - 1 },
+		func(c *core.Trace, from, to int) { c.Steps = append(c.Steps[:from+1], c.Steps[to+1:]...) })
+	// 2. trailing replicas
 	for len(best.Replicas) > 1 {
 		c := cloneTrace(best)
 		last := len(c.Replicas) - 1
@@ -390,6 +355,93 @@ func minimise(tr *core.Trace, want core.Violation, maxReplays int, maxWall time.
 		} else {
 			break
 		}
+	}
+	// 3. site actions (flattened over all steps)
+	type ref struct{ s, a int }
+	flatActs := func(t *core.Trace) []ref {
+		var out []ref
+		for si, st := range t.Steps {
+			for ai := range st.Acts {
+				out = append(out, ref{si, ai})
+			}
+		}
+		return out
+	}
+	ddmin(func(t *core.Trace) int { return len(flatActs(t)) },
+		func(c *core.Trace, from, to int) {
+			fl := flatActs(c)
+			drop := map[ref]bool{}
+			for _, r := range fl[from:to] {
+				drop[r] = true
+			}
+			for si, st := range c.Steps {
+				var keep []core.SiteAct
+				for ai, a := range st.Acts {
+					if !drop[ref{si, ai}] {
+						keep = append(keep, a)
+					}
+				}
+				st.Acts = keep
+			}
+		})
+	// 4. CheckTx calls inside the remaining actions
+	type ref3 struct{ s, a, c int }
+	flatChecks := func(t *core.Trace) []ref3 {
+		var out []ref3
+		for si, st := range t.Steps {
+			for ai, a := range st.Acts {
+				for ci := range a.Checks {
+					out = append(out, ref3{si, ai, ci})
+				}
+			}
+		}
+		return out
+	}
+	ddmin(func(t *core.Trace) int { return len(flatChecks(t)) },
+		func(c *core.Trace, from, to int) {
+			fl := flatChecks(c)
+			drop := map[ref3]bool{}
+			for _, r := range fl[from:to] {
+				drop[r] = true
+			}
+			for si, st := range c.Steps {
+				var keepA []core.SiteAct
+				for ai, a := range st.Acts {
+					var keep []string
+					for ci, ch := range a.Checks {
+						if !drop[ref3{si, ai, ci}] {
+							keep = append(keep, ch)
+						}
+					}
+					hadChecks := len(a.Checks) > 0
+					a.Checks = keep
+					if hadChecks && len(keep) == 0 && !a.Crash {
+						continue
+					}
+					keepA = append(keepA, a)
+				}
+				st.Acts = keepA
+			}
+		})
+	// 5. transactions, block by block (and "checks" steps)
+	for si := range best.Steps {
+		if len(best.Steps[si].Txs) == 0 {
+			continue
+		}
+		isBlock := best.Steps[si].Kind == "block"
+		ddmin(func(t *core.Trace) int { return len(t.Steps[si].Txs) },
+			func(c *core.Trace, from, to int) {
+				st := c.Steps[si]
+				for k := to - 1; k >= from; k-- {
+					st.Txs = append(st.Txs[:k], st.Txs[k+1:]...)
+					if k < len(st.Labels) {
+						st.Labels = append(st.Labels[:k], st.Labels[k+1:]...)
+					}
+					if isBlock {
+						dropDeliverActs(st, k)
+					}
+				}
+			})
 	}
 	return best, replays
 }
@@ -639,7 +691,7 @@ func CheckMain(prop, tier string) int {
 			exit = 1
 			continue
 		}
-		min, n := minimise(r.Trace, v, 150, 150*time.Second)
+		min, n := minimise(r.Trace, v, 400, 240*time.Second)
 		repM, _ := replayTrace(min)
 		if !sameViolation(repM, v) {
 			min = r.Trace
